@@ -310,6 +310,51 @@ def run_c13(run: core.Run, n_markers: int) -> None:
                         continue
                     if any(ev(r1, env) != ev(r2, env) for env in envs):
                         run.fail(core.Failure(f"minter|{ta}|{tb}|{tc}", f"[{ta}] == [{tb}] but combining them with [{tc}] gives different meanings", rep))
+    # deterministic layer (seed C13k: an `__eq__` that zero-pads python_full_version operands, `~=` included, so
+    # `~= "3.8"` == `~= "3.8.0"`): every version variable x every operator x every padding of one release x both operand
+    # orders; equal atoms must evaluate alike on a FIXED interpreter ladder and be interchangeable with fixed partners
+    ladder_full = ["2.7.18", "3.0.0", "3.1.0", "3.7.9", "3.8.0", "3.8.1", "3.8.5", "3.9.0", "3.9.1", "3.10.0", "3.10.4", "4.0.0", "4.1.2"]
+    ladder_envs = []
+    for full in ladder_full:
+        env = dict(envs[0])
+        X, Y = full.split(".")[:2]
+        env.update({"python_full_version": full, "python_version": f"{X}.{Y}", "implementation_version": full})
+        ladder_envs.append(env)
+    n_twins = 0
+    for var in ("python_version", "python_full_version", "implementation_version"):
+        atoms = []
+        for op in ("==", "!=", "<", "<=", ">", ">=", "~="):
+            for lit in ("3", "3.0", "3.0.0", "3.8", "3.8.0", "3.8.0.0", "3.9", "3.9.0", "3.10", "3.10.0"):
+                if op == "~=" and "." not in lit:
+                    continue            # `~=3` is not a PEP 440 clause: not a well-defined atom
+                for text in (f'{var} {op} "{lit}"', f'"{lit}" {op} {var}'):
+                    try:
+                        atoms.append((text, timed(lambda: mk.parse_marker(text))))
+                    except Exception:  # noqa: BLE001
+                        pass
+        partners = [mk.parse_marker(f'{var} >= "3.9"'), mk.parse_marker(f'{var} < "3.8.5"'), mk.parse_marker('os_name == "nt"')]
+        for (ta, a), (tb, b) in itertools.product(atoms, atoms):
+            n_twins += 1
+            n_oracle += 1
+            eq = (a == b)
+            rep = {"op": "mktwin", "a": ta, "b": tb, "var": var}
+            if eq != (b == a):
+                run.fail(core.Failure(f"msym|{ta}|{tb}", f"[{ta}] == [{tb}] is {eq}, converse {b == a}", rep))
+            if not eq:
+                continue
+            if hash(a) != hash(b) or len({a, b}) != 1:
+                run.fail(core.Failure(f"mhash|{ta}|{tb}", f"[{ta}] == [{tb}] but hashes differ / they are two set members", rep))
+            if any(ev(a, env) != ev(b, env) for env in ladder_envs):
+                run.fail(core.Failure(f"meval|{ta}|{tb}", f"[{ta}] == [{tb}] but they evaluate differently", rep))
+            for c_ in partners:
+                for f in (lambda x: c_ & x, lambda x: x | c_, lambda x: x & c_, lambda x: c_ | x):
+                    try:
+                        r1, r2 = timed(lambda: f(a)), timed(lambda: f(b))
+                    except Exception:  # noqa: BLE001
+                        continue
+                    if any(ev(r1, env) != ev(r2, env) for env in ladder_envs):
+                        run.fail(core.Failure(f"minter|{ta}|{tb}|{c_}", f"[{ta}] == [{tb}] but combining them with [{c_}] gives different meanings", rep))
+    run.extra["padding_twin_pairs"] = n_twins
     sample = rng.sample(pool, min(len(pool), 60))
     for (ta, a), (tb, b) in itertools.product(sample, sample):
         run.add(core.Case("marker.eq", "m.eq\t" + mk.leaf_tokens(ta) + "\t" + mk.leaf_tokens(tb), enc_T(a == b), a == b))
@@ -747,6 +792,28 @@ def replay(data: dict) -> bool:
         for env in mk.envs_for(ts, random.Random(0), 200):
             if not mk.known_family(ts, env) and ev(l, env) != ev(rr, env):
                 return True
+        return False
+    if r["op"] == "mktwin":
+        a, b = mk.parse_marker(r["a"]), mk.parse_marker(r["b"])
+        eq = (a == b)
+        if eq != (b == a) or (eq and (hash(a) != hash(b) or len({a, b}) != 1)):
+            return True
+        if not eq:
+            return False
+        var = r["var"]
+        base = mk.envs_for([r["a"], r["b"]], random.Random(0), 1)[0]
+        envs = []
+        for full in ["2.7.18", "3.0.0", "3.1.0", "3.7.9", "3.8.0", "3.8.1", "3.8.5", "3.9.0", "3.9.1", "3.10.0", "3.10.4", "4.0.0", "4.1.2"]:
+            env = dict(base)
+            X, Y = full.split(".")[:2]
+            env.update({"python_full_version": full, "python_version": f"{X}.{Y}", "implementation_version": full})
+            envs.append(env)
+        if any(ev(a, env) != ev(b, env) for env in envs):
+            return True
+        for c_ in [mk.parse_marker(f'{var} >= "3.9"'), mk.parse_marker(f'{var} < "3.8.5"'), mk.parse_marker('os_name == "nt"')]:
+            for f in (lambda x: c_ & x, lambda x: x | c_, lambda x: x & c_, lambda x: c_ | x):
+                if any(ev(f(a), env) != ev(f(b), env) for env in envs):
+                    return True
         return False
     if r["op"] == "mkeq":
         a, b = mk.parse_marker(r["a"]), mk.parse_marker(r["b"])
